@@ -20,9 +20,13 @@ import TempestVerif.Model.Student
       cv = 0.5 * np.sqrt(np.sum(w**2 * deviation**2))
       return cv
 
+  SOURCE-DERIVED: `Props/C20Source.lean` proves (`C20_src_volvar_shape`, by `rfl`; `C20_src_volvar`) that `volvar` below is the
+  function compiled from the current `tools.py` by translator G16 (`Gen/ToolsSrc.lean`): `wmean`, `centre`, `wcov`, `addRidge`,
+  `maha2`, `radicand` are written exactly as the source writes them (operand order included).  Keep them that way.
+
   Data layout: `x` is the list of its `n_samples` rows, each a list of `n_dim` numbers; `n_dim` is passed explicitly
-  (numpy reads it from `x.shape`, also for an empty array).  `cov` is the weighted sum of the outer products
-  `Σ_i xc_i ⊗ (w_i·xc_i)` (BLAS computes the same numbers in another order).
+  (numpy reads it from `x.shape`, also for an empty array).  `cov` is the sum of the outer products
+  `Σ_i xc_i ⊗ (xc_i·w_i)` (`dotT`; BLAS computes the same numbers in another order).
   `np.linalg.matrix_rank(cov) < n_dim` and `np.linalg.inv` raising are both modelled by the Gauss–Jordan inverse of
   `Model.Student` (no pivoting; it answers `none` as soon as a pivot is not `> 0`): `cov` is a weighted Gram matrix, hence
   positive semi-definite, and for such a matrix "some pivot is ≤ 0" is "singular" in exact arithmetic.  In floating point
@@ -55,36 +59,52 @@ def madd (A B : Mat α) : Mat α := List.zipWith vadd A B
 
 def mzero (d : Nat) : Mat α := List.replicate d (List.replicate d Sc.zero)
 
-/-- `np.sum(x * w[:, None], axis=0)` -/
-def wmean (d : Nat) (x : Mat α) (w : List α) : List α := lincomb d w x
+/-! ### numpy routines (hand-written models; `Gen/ToolsSrc.lean` — regenerated from `tools.py` — refers to these by name) -/
 
-/-- `x - weighted_mean` -/
-def centre (x : Mat α) (m : List α) : Mat α := x.map fun row => List.zipWith Sc.sub row m
+/-- `np.sum(M, axis=0)` of a matrix with `d` columns: the rows added up, left to right -/
+def sumAxis0 (d : Nat) (M : Mat α) : List α := M.foldl vadd (List.replicate d Sc.zero)
 
-/-- `np.dot(xc.T, xc * w[:, None])` -/
-def wcov (d : Nat) (xc : Mat α) (w : List α) : Mat α :=
-  (List.zipWith (fun r wi => outer r (r.map fun v => Sc.mul v wi)) xc w).foldl madd (mzero d)
+/-- `np.dot(A.T, B)` for `A`, `B` with the same number of rows and `d` columns: `Σ_i A_i ⊗ B_i` -/
+def dotT (d : Nat) (A B : Mat α) : Mat α := (List.zipWith outer A B).foldl madd (mzero d)
+
+/-- `A @ B` where `B` has `d` columns: row `r` of `A` becomes `Σ_k r_k · B_k` -/
+def matmul (d : Nat) (A B : Mat α) : Mat α := A.map fun r => lincomb d r B
+
+/-- `np.eye(d)` -/
+def eye (d : Nat) : Mat α := (List.range d).map fun k => identRow d k
 
 /-- `np.trace` -/
 def trace (M : Mat α) : α := Sc.sum (M.zipIdx.filterMap fun (r, i) => r[i]?)
 
-/-- `cov + np.eye(d) * reg` -/
-def addRidge (M : Mat α) (reg : α) : Mat α :=
-  M.zipIdx.map fun (r, i) => r.zipIdx.map fun (v, j) => if i == j then Sc.add v reg else v
-
 /-- `np.clip(t, lo, hi) = minimum(maximum(t, lo), hi)` -/
 def clip (t lo hi : α) : α := Sc.min (Sc.max t lo) hi
 
+/-! ### the statements of `volume_variation`, each written exactly as the source writes it (operand order included):
+    `Props/C20Source.lean` proves that the whole function, compiled from the source, is built from these terms -/
+
+/-- `np.sum(x * w[:, np.newaxis], axis=0)` -/
+def wmean (d : Nat) (x : Mat α) (w : List α) : List α :=
+  sumAxis0 d (List.zipWith (fun r c => r.map fun t => Sc.mul t c) x w)
+
+/-- `x - weighted_mean` -/
+def centre (x : Mat α) (m : List α) : Mat α := x.map fun row => List.zipWith Sc.sub row m
+
+/-- `np.dot(xc.T, xc * w[:, np.newaxis])` -/
+def wcov (d : Nat) (xc : Mat α) (w : List α) : Mat α :=
+  dotT d xc (List.zipWith (fun r c => r.map fun t => Sc.mul t c) xc w)
+
+/-- `cov + np.eye(n_dim) * reg` -/
+def addRidge (d : Nat) (M : Mat α) (reg : α) : Mat α :=
+  madd M ((eye d).map fun r => r.map fun t => Sc.mul t reg)
+
 /-- `np.sum(xc @ cov_inv * xc, axis=1)` -/
 def maha2 (d : Nat) (xc : Mat α) (Sinv : Mat α) : List α :=
-  xc.map fun r => dot (lincomb d r Sinv) r
+  (List.zipWith (fun r s => List.zipWith (fun t u => Sc.mul t u) r s) (matmul d xc Sinv) xc).map fun r => Sc.sum r
 
 /-- `np.sum(w**2 * np.clip(d2 - n_dim, -1e6, 1e6)**2)` -/
 def radicand (d : Nat) (w d2 : List α) : α :=
-  let lim : α := Sc.ofNat 1000000
-  Sc.sum (List.zipWith (fun wi t =>
-    let dev := clip (Sc.sub t (Sc.ofNat d)) (Sc.neg lim) lim
-    Sc.mul (Sc.mul wi wi) (Sc.mul dev dev)) w d2)
+  let dev := (d2.map fun t => Sc.sub t (Sc.ofNat d)).map fun t => clip t (Sc.neg (Sc.ofNat 1000000)) (Sc.ofNat 1000000)
+  Sc.sum (List.zipWith (fun t u => Sc.mul t u) (w.map fun t => Sc.mul t t) (dev.map fun t => Sc.mul t t))
 
 /-- everything up to the square root -/
 def out (d : Nat) (x : Mat α) (w0 : Option (List α)) : Out α :=
@@ -98,7 +118,7 @@ def out (d : Nat) (x : Mat α) (w0 : Option (List α)) : Out α :=
   | some Sinv => ⟨.main, radicand d w (maha2 d xc Sinv)⟩
   | none =>
     let reg := Sc.mul (Sc.lit 1 6) (trace cov)
-    match inv (addRidge cov reg) with
+    match inv (addRidge d cov reg) with
     | some Sinv => ⟨.ridge, radicand d w (maha2 d xc Sinv)⟩
     | none => ⟨.singular, Sc.zero⟩
 
